@@ -20,11 +20,13 @@ PROPS = {
     "C01": _p(["generate", "find"], COMMON_TRUST + " A lock value, when present, is >= 1 (written by Breadlog).",
               "proof for all entry lists / file sets / counter values: reduce, Insert::map (consecutive checked IDs), the drivers' alloc_inv "
               "(disjoint ranges above every existing ID) and generate_code; Kani only finds counterexamples for failed obligations"),
-    "C02": _p(["generate", "context"], COMMON_TRUST + " CLAIMED AT OPERATION GRANULARITY FOR RUNS WHOSE LOCK WRITE SUCCEEDS: C02.step carries the escape "
-              "`|| lock_write_failed()`; the write-ahead obligation (lock before rename) is not checked (fails by design of the tool, DESIGN.md B3).",
+    "C02": _p(["generate", "context"], COMMON_TRUST + " TWO KNOWN FINDINGS (known_findings.json, reproduced by findings/*.sh): the lock is written after the "
+              "source files, so (a) a kill between a rename and the lock write [C02.writeahead at the rename call site] and (b) a failed lock write, which "
+              "is only logged [C02.lockfail of generate_code], leave a stale lock; every other obligation of C02 is discharged.",
               "step contract on generate_code for every exit (success, failed file, stop request): with the cache in use the lock file holds the counter "
-              "value, which is >= every ID written; the lock writer's contract is proved in unit context; spec/history.rs proves by induction over histories "
-              "(developer edits, check runs, edit runs satisfying the step contract) that the lock dominates every ID ever written, hence no ID is written twice"),
+              "value, which is >= every ID written (given the lock write succeeds); the lock writer's contract is proved in unit context; spec/history.rs "
+              "proves by induction over histories (developer edits, check runs, edit runs satisfying the step contract) that the lock dominates every ID ever "
+              "written, hence no ID is written twice"),
     "C03": _p(["generate", "find"], COMMON_TRUST,
               "Insert::map: the file is its original or an is_token_insertion of it (splice over exactly the missing entries, lemma erase==original); "
               "frame on all other paths; insertion offsets proved in range and ordered for `find`'s result"),
